@@ -10,12 +10,12 @@ namespace vf {
 
 const char* property_id() { return "C07"; }
 unsigned case_timeout_s() { return 300; }
-uint64_t num_cases(bool thorough) { return (thorough ? 15000 : 2000) * c07::num_types(); }   // item types round-robin
+uint64_t num_cases(bool thorough) { return c07::cases_per_type(thorough) * c07::num_types(); }   // item types round-robin
 void final_report() {}
 
 struct ClassicFam {
   static const char* name() { return "classic"; }
-  template<typename T> using SK = quantiles_sketch<T, typename c07::Tr<T>::Cmp>;
+  template<typename K> using SK = quantiles_sketch<typename c07::Tr<K>::T, typename c07::Tr<K>::Cmp>;
   struct Cfg {};
   static Cfg cfg(Rng&) { return Cfg(); }
   static std::string cfg_str(const Cfg&) { return "classic"; }
@@ -24,7 +24,18 @@ struct ClassicFam {
     if (thorough && r.chance(0.1)) return r.pick({256u, 512u, 2048u});
     return ks[r.below(sizeof ks / sizeof ks[0])];
   }
-  template<typename T> static SK<T> make(uint32_t k, const Cfg&) { return SK<T>(static_cast<uint16_t>(k)); }
+  template<typename K> static SK<K> make(uint32_t k, const Cfg&, const typename c07::Tr<K>::Cmp& cmp) { return SK<K>(static_cast<uint16_t>(k), cmp); }
+  template<typename K> static SK<K> roundtrip(const SK<K>& sk, const typename c07::Tr<K>::Cmp& cmp, bool stream) {
+    typedef typename c07::Tr<K>::T T;
+    if (stream) {
+      std::stringstream ss(std::ios::in | std::ios::out | std::ios::binary);
+      sk.serialize(ss);
+      return SK<K>::deserialize(ss, serde<T>(), cmp);
+    }
+    const auto bytes = sk.serialize();
+    return SK<K>::deserialize(bytes.data(), bytes.size(), serde<T>(), cmp);
+  }
+
   static uint64_t exact_cap(uint32_t k) { return 2ULL * k - 1; }
 
   // stated: base buffer of n mod 2k items plus one k-item level per set bit of n / 2k
